@@ -15,7 +15,7 @@ IMPORTS = "Base Json Discover Migrate CorrC20"
 CASE_TYPE = "case_C20"
 MISMATCHES = "mismatches_C20"
 VIOLATIONS = "violations_C20"
-KNOWN = "known_C20"
+KNOWN = None
 SHARD = 40
 EXHAUSTIVE = {"quick": False, "thorough": True}
 RULE = ("one case = one real project directory written the way signac 1.x did (vendored ConfigObj writes signac.rc with "
@@ -70,6 +70,7 @@ def all_inputs():
     return out
 
 
+# the former F17 witness (fixed by 8637b58): custom workspace_dir that was never created
 F17_WITNESS = {"layout": "v1", "ver": 1, "name": "test_project", "ws": "ws", "ws_exists": False, "collide": None,
                "njobs": 0, "cache": False, "hist": False, "predoc": False}
 
